@@ -289,7 +289,7 @@ def rule_bm(ctx):
             verdict = (sc, sb, m, dg)
   if verdict is None:
     # report the assignment with the fewest failed obligations
-    tried.sort(key=lambda t: len(t[4]))
+    tried.sort(key=lambda t: (sum("does not test" in x for x in t[4]), len(t[4])))
     why = tried[0][4] if tried else ["no pair of sequence-initialised integers and zero-initialised counters found"]
     ctx.violation(R, f.where, "loop body refines C <- C + x^(n-nb) B", "; ".join(why[:3]))
   else:
